@@ -199,7 +199,12 @@ fn run_case(seed: u64) -> Case {
     let mut pre_local: BTreeSet<Entity> = BTreeSet::new();
     let mut unrelated: Option<Entity> = None;
     if rng.below(2) == 0 {
-        if let Some((&e, _)) = expected.iter().nth(rng.below(expected.len().max(1))) {
+        // any subset of the marked entities, in arbitrary order
+        let mut pre: Vec<Entity> = expected.keys().copied().filter(|_| rng.below(2) == 0).collect();
+        for i in (1..pre.len()).rev() {
+            pre.swap(i, rng.below(i + 1));
+        }
+        for e in pre {
             sc.entities.push(bevy::scene::DynamicEntity { entity: e, components: vec![Box::new(Local(7)).into_partial_reflect()] });
             pre_local.insert(e);
             case.desc.push(format!("scene already contains {e} with Local"));
@@ -207,9 +212,10 @@ fn run_case(seed: u64) -> Case {
     }
     if rng.below(3) == 0 {
         let e = Entity::from_raw(5000 + rng.below(100) as u32);
-        sc.entities.push(bevy::scene::DynamicEntity { entity: e, components: vec![Box::new(Local(9)).into_partial_reflect()] });
+        let at = rng.below(sc.entities.len() + 1);
+        sc.entities.insert(at, bevy::scene::DynamicEntity { entity: e, components: vec![Box::new(Local(9)).into_partial_reflect()] });
         unrelated = Some(e);
-        case.desc.push(format!("scene already contains unrelated {e}"));
+        case.desc.push(format!("scene already contains unrelated {e} at position {at}"));
     }
     let r = catch_unwind(AssertUnwindSafe(|| scene::replicate_into(&mut sc, app.world())));
     if r.is_err() {
